@@ -22,7 +22,7 @@ Definition theorem_domain (nss : list (ident * text)) (ids : bool) (s : snode) (
 Theorem roundtrip_exec : forall nss ids stream s d, theorem_domain nss ids s d = true ->
   exists x back,
     write_doc nss ids dec_text false stream s d = Some x /\ doc_wf x = true /\
-    read_doc nss parse_dec_exact false s x = Ok back /\ same_tree s back d = true.
+    read_doc nss parse_dec_exact false false s x = Ok back /\ same_tree s back d = true.
 Proof.
   intros nss ids stream s d H. unfold theorem_domain in H.
   repeat (apply andb_true_iff in H; destruct H as (H & ?)).
@@ -59,7 +59,7 @@ Proof. split; vm_compute; reflexivity. Qed.
 
 Example roundtrip_instance :
   (match write_doc ex_nss false dec_text false true ex_schema ex_data with
-   | Some x => read_doc ex_nss parse_dec_exact false ex_schema x
+   | Some x => read_doc ex_nss parse_dec_exact false false ex_schema x
    | None => Err EOther
    end) = Ok ex_data.
 Proof. vm_compute. reflexivity. Qed.
@@ -68,7 +68,7 @@ Proof. vm_compute. reflexivity. Qed.
 Example pinned_reader_refuted :
   exists back,
     (match write_doc ex_nss false dec_text false false ex_schema ex_data with
-     | Some x => read_doc ex_nss parse_dec_exact true ex_schema x
+     | Some x => read_doc ex_nss parse_dec_exact true false ex_schema x
      | None => Err EOther
      end) = Ok back /\ same_tree ex_schema back ex_data = false.
 Proof. eexists. split; [vm_compute; reflexivity | vm_compute; reflexivity]. Qed.
@@ -78,7 +78,27 @@ Proof. eexists. split; [vm_compute; reflexivity | vm_compute; reflexivity]. Qed.
 Example pinned_stream_writer_refuted :
   exists back,
     (match write_doc ex_nss false dec_text true true ex_schema ex_data with
-     | Some x => read_doc ex_nss parse_dec_exact false ex_schema x
+     | Some x => read_doc ex_nss parse_dec_exact false false ex_schema x
      | None => Err EOther
      end) = Ok back /\ same_tree ex_schema back ex_data = false.
 Proof. eexists. split; [vm_compute; reflexivity | vm_compute; reflexivity]. Qed.
+
+(** ** the pinned commit: XmlNode.Choose looked only at a case's own definitions, so a node below a
+    choice nested in a case without nodes of its own was never read ( choice h { case a { choice g {
+    case b { leaf x } } } } ) *)
+Definition ex_choice_schema : snode :=
+  SCont (ex_meta [x6d] [x6d])
+    [ SLeaf (mkMeta [x78] [x6d] true [(0%nat, 0%nat); (1%nat, 0%nat)] None) TStr false None ].
+Definition ex_choice_data : dnode := DCont [ Some (DLeaf (LV (VStr [x76]))) ].
+
+Example pinned_choose_refuted :
+  (match write_doc ex_nss false dec_text false false ex_choice_schema ex_choice_data with
+   | Some x => read_doc ex_nss parse_dec_exact false false ex_choice_schema x
+   | None => Err EOther
+   end) = Ok ex_choice_data /\
+  exists back,
+    (match write_doc ex_nss false dec_text false false ex_choice_schema ex_choice_data with
+     | Some x => read_doc ex_nss parse_dec_exact false true ex_choice_schema x
+     | None => Err EOther
+     end) = Ok back /\ same_tree ex_choice_schema back ex_choice_data = false.
+Proof. split; [vm_compute; reflexivity|]. eexists. split; [vm_compute; reflexivity | vm_compute; reflexivity]. Qed.
